@@ -1,4 +1,4 @@
-\* spec -> code (quick): every edge out of every state reachable in <= 3 calls from the hand-picked patterns PatE,
+\* spec -> code (quick): every edge out of every state reachable in <= 3 calls from the 8 hand-picked patterns PatE,
 \* with the observation of every state (workers 1)
 CONSTANTS Dom <- DomE  Patterns <- PatE  MaxLevel = 4  Go <- GoBounded
 ACTION_CONSTRAINT Emit
